@@ -337,7 +337,15 @@ static Result check_slab(const J &c)
         {
           // listed finding: the slab plate model uses 273.15 K as its cold end member whatever the configured surface temperature
           const bool listed = kind == "plate model" && G.Ts > 273.15 && out[0] >= 273.15 - tau;
-          return Result::fail(listed ? "slab-plate-model-cold-end-273" : "slab-below-surface-temperature/" + kind, "slab '" + kind + "' returns " + fmt(out[0]) + " at depth " + fmt(depth) + ", colder than the surface temperature " + fmt(G.Ts) + "; model " + m.dump());
+          // listed finding: the plate model's 500-term series is cut off sharply; at the corner where the slab top meets the trench
+          // (no decay along the slab yet) the partial sum overshoots by the Gibbs fraction of its jump, 0.18 (Tp - 273.15) K, within
+          // a few hundred metres of the trench line and of the slab top
+          const ref::PlaneDist pd = ref::planar_slab(segs, qx, qy);
+          const double thick = c.at("thick").num();
+          const bool gibbs = kind == "plate model" && pd.segment >= 0 && pd.along < 0.002 * thick && pd.from > -1.0 && pd.from < 0.02 * thick
+                             && out[0] >= 273.15 - 0.18 * (G.Tp - 273.15) - 1.0;
+          return Result::fail(gibbs ? "slab-plate-model-series-undershoot-at-the-trench" : (listed ? "slab-plate-model-cold-end-273" : "slab-below-surface-temperature/" + kind),
+                              "slab '" + kind + "' returns " + fmt(out[0]) + " at depth " + fmt(depth) + " (" + fmt(pd.along) + " m along the slab, " + fmt(pd.from) + " m below its top), colder than the surface temperature " + fmt(G.Ts) + "; model " + m.dump());
         }
     }
   return r;
